@@ -636,13 +636,15 @@ struct AccountingTestMemoryAllocatorMemoryNode
     AccountingTestMemoryAllocatorMemoryNode* next_;
 };
 
-void AccountingTestMemoryAllocator::addMemoryToMemoryTrackingToKeepTrackOfSize(char* memory, size_t size)
+bool AccountingTestMemoryAllocator::addMemoryToMemoryTrackingToKeepTrackOfSize(char* memory, size_t size)
 {
     AccountingTestMemoryAllocatorMemoryNode* node = (AccountingTestMemoryAllocatorMemoryNode*) (void*) originalAllocator_->alloc_memory(sizeof(AccountingTestMemoryAllocatorMemoryNode), __FILE__, __LINE__);
+    if (node == NULLPTR) return false;
     node->memory_ = memory;
     node->size_ = size;
     node->next_ = head_;
     head_ = node;
+    return true;
 }
 
 size_t AccountingTestMemoryAllocator::removeNextNodeAndReturnSize(AccountingTestMemoryAllocatorMemoryNode* node)
@@ -680,9 +682,13 @@ size_t AccountingTestMemoryAllocator::removeMemoryFromTrackingAndReturnAllocated
 
 char* AccountingTestMemoryAllocator::alloc_memory(size_t size, const char* file, size_t line)
 {
-    accountant_.alloc(size);
     char* memory = originalAllocator_->alloc_memory(size, file, line);
-    addMemoryToMemoryTrackingToKeepTrackOfSize(memory, size);
+    if (memory == NULLPTR) return NULLPTR; /* the allocator underneath failed: there is nothing to account for */
+    if (!addMemoryToMemoryTrackingToKeepTrackOfSize(memory, size)) {
+        originalAllocator_->free_memory(memory, size, file, line);
+        return NULLPTR;
+    }
+    accountant_.alloc(size);
     return memory;
 }
 
